@@ -227,15 +227,17 @@ class ParseMCNPCell:
     def parse_keywords(self, kw_list):
         '''Parse the list of keywords following the cell definition.'''
         keywords = defaultdict(lambda: None)
+        importances = {}
         while kw_list:
             elt = kw_list.pop()
             if elt.startswith('imp'):
                 importance = float(kw_list.pop())
-                if 'importance' in keywords:
-                    keywords['importance'] = max(importance,
-                                                 keywords['importance'])
-                else:
-                    keywords['importance'] = importance
+                # the importance of the cell is the maximum over the particle
+                # types; for a given particle type, the last value wins (this
+                # is how LIKE n BUT overrides the importance)
+                for particle in elt.partition(':')[2].split(','):
+                    importances[particle] = importance
+                keywords['importance'] = max(importances.values())
             elif 'fill' in elt:
                 f_bounds, f_univs, f_params = self.parse_fill_kw(elt, kw_list)
                 keywords['f_bounds'] = f_bounds
